@@ -47,14 +47,30 @@ def expected_kwargs(r, i):
     items = list(PARAMS[r["params"]])
     if r["par"] != "absent" and r["keycfg"] == "none":
         items.append(("$key", KEY if r["par"] == "right" else WRONG_KEYS[i % len(WRONG_KEYS)]))
+        if r["par"] == "wrong" and i % 4 == 1:
+            items.append(("$key", KEY))
     out = {}
     for k, v in items:
         out.setdefault(k, []).append(v)
     return {k: (v[0] if len(v) == 1 else v) for k, v in out.items()}
 
 
+# concrete members of the classes "unknown" and "private": besides the plain ones, a name that continues after a line break with
+# the name of a real member, and names that mean something to the gateway's own proxy object
+UNKNOWN_MEMBERS = ["nosuch", "echo\nzzz", "nosuch", "value\n", "nosuch"]
+PRIVATE_MEMBERS = ["_secret", "_pyroRelease", "_secret", "__class__", "_pyroBind", "_secret", "__dict__", "_pyroClaimOwnership"]
+
+
+def member_text(r, i):
+    if r["member"] == "unknown":
+        return UNKNOWN_MEMBERS[i % len(UNKNOWN_MEMBERS)]
+    if r["member"] == "private":
+        return PRIVATE_MEMBERS[i % len(PRIVATE_MEMBERS)]
+    return MEMBERS[r["member"]]
+
+
 def build_request(r, i):
-    name, member = NAMES[r["name"]], MEMBERS[r["member"]]
+    name, member = NAMES[r["name"]], member_text(r, i)
     path = {"root": "/", "pyro_noslash": "/pyro", "index": "/pyro/", "one_seg": "/pyro/" + name, "obj_trailing": "/pyro/" + name + "/",
             "call": "/pyro/%s/%s" % (name, member), "extra_seg": "/pyro/%s/x/%s" % (name, member),
             "outside": ("/other/%s/%s", "/pyrox/%s/%s", "/Pyro/%s/%s")[i % 3] % (name, member)}[r["path"]]
@@ -62,6 +78,8 @@ def build_request(r, i):
     wrong = WRONG_KEYS[i % len(WRONG_KEYS)]
     if r["par"] != "absent":
         items.insert(i % (len(items) + 1), ("$key", KEY if r["par"] == "right" else wrong))
+        if r["par"] == "wrong" and i % 4 == 1:
+            items.append(("$key", KEY))        # the parameter given twice, the right key second: still not the key
     env = {"REQUEST_METHOD": r["meth"], "PATH_INFO": path, "QUERY_STRING": urllib.parse.urlencode(items), "wsgi.errors": io.StringIO(),
            "SERVER_NAME": "localhost", "SERVER_PORT": "8080"}
     if r["hdr"] != "absent":
@@ -162,13 +180,19 @@ def run_cases(cases):
                         sc.sleep(12.0)      # whatever the gateway sent has been served by now
                     sc.quiesce()
                     tr["status"] = int(got.get("status", "0").split()[0])
+                except (S.SchedAbort,):
+                    raise
                 except S.Hang:
                     tr["status"] = -1
                     body = b""
                     G._nameserver = None
+                except Exception as x:
+                    # the application let an exception escape: the web server in front of it answers 500 with its own text
+                    tr["status"] = 599
+                    body = ("escaped: %s: %s" % (type(x).__name__, x)).encode("utf-8", "replace")
                 tr["traffic"] = hook.sent
                 tr["inv"] = len(log)
-                name, member = NAMES[r["name"]], MEMBERS[r["member"]]
+                name, member = NAMES[r["name"]], member_text(r, i)
                 want = {"tag": REGISTERED.get(name), "member": member, "kwargs": expected_kwargs(r, i)}
                 tr["inv_right"] = all({k: x[k] for k in ("tag", "member", "kwargs")} == want for x in log)
                 tr["invocations"] = [{k: x[k] for k in ("tag", "member", "kwargs")} for x in log]
